@@ -462,6 +462,13 @@ func (in *Inst) call(v ssa.Value, c *ssa.CallCommon, kind string, g *Term, b *ss
 	var clo *closureVal
 	if fnTerm != nil && fnTerm.Op == "closure" {
 		clo = &closureVal{Fn: fnTerm.Args[0].Sym.Obj.(*ssa.Function), Free: fnTerm.Args[1:]}
+		for _, f := range clo.Free {
+			if isCellTerm(f) && in.X.cellCur[f.Sym] != nil {
+				clo.FreeVals = append(clo.FreeVals, S.Restrict(in.X.cellCur[f.Sym], g))
+			} else {
+				clo.FreeVals = append(clo.FreeVals, f)
+			}
+		}
 	}
 
 	if kind == "call" {
@@ -503,6 +510,19 @@ func (in *Inst) call(v ssa.Value, c *ssa.CallCommon, kind string, g *Term, b *ss
 			}
 			if pure && in.argsReadOnly(args) {
 				return S.mkOp("call:"+name, resTy, args...)
+			}
+		}
+	}
+	if kind == "call" && c.IsInvoke() && in.X.Cfg.PureInvoke[c.Method.Name()] {
+		return S.mkOp("call:"+name, resTy, append([]*Term{recv}, args...)...)
+	}
+	// closures handed to a callee that is not inlined (or started as goroutines) may store to the cells
+	// they capture at any time: those cells lose their known value
+	for _, a := range append(append([]*Term{}, args...), fnTerm) {
+		if a != nil && a.Op == "closure" {
+			for _, cell := range in.cellsStoredByClosure(a) {
+				h := in.newSym(SRes, "havoc_"+cell.Name, in.X.cellCur[cell].Ty)
+				in.X.cellCur[cell] = S.SymTerm(h)
 			}
 		}
 	}
@@ -604,4 +624,50 @@ func (in *Inst) inline(fn *ssa.Function, args []*Term, clo *closureVal, g *Term,
 		return S.mkOp("tuple", TTuple, parts...)
 	}
 	return S.Mux(cases, cases[0].V.Ty)
+}
+
+// cellsStoredByClosure lists the captured cells that the closure body (or closures it calls) may store to.
+func (in *Inst) cellsStoredByClosure(clo *Term) []*Symbol {
+	fn := clo.Args[0].Sym.Obj.(*ssa.Function)
+	free := clo.Args[1:]
+	seen := map[*Symbol]bool{}
+	var out []*Symbol
+	var scan func(fn *ssa.Function, free []*Term, depth int)
+	scan = func(fn *ssa.Function, free []*Term, depth int) {
+		res := func(v ssa.Value) *Symbol {
+			if fv, ok := v.(*ssa.FreeVar); ok {
+				for i, f := range fn.FreeVars {
+					if f == fv && i < len(free) && free[i] != nil && isCellTerm(free[i]) {
+						return free[i].Sym
+					}
+				}
+			}
+			return nil
+		}
+		for _, b := range fn.Blocks {
+			for _, instr := range b.Instrs {
+				switch t := instr.(type) {
+				case *ssa.Store:
+					if sy := res(t.Addr); sy != nil && !seen[sy] {
+						seen[sy] = true
+						out = append(out, sy)
+					}
+				case *ssa.MakeClosure:
+					if depth < 4 {
+						var fr []*Term
+						for _, bnd := range t.Bindings {
+							if sy := res(bnd); sy != nil {
+								fr = append(fr, in.X.S.SymTerm(sy))
+							} else {
+								fr = append(fr, nil)
+							}
+						}
+						scan(t.Fn.(*ssa.Function), fr, depth+1)
+					}
+				}
+			}
+		}
+	}
+	scan(fn, free, 0)
+	return out
 }
